@@ -431,79 +431,171 @@ def corr_direct(ctx):
 
 # --------------------------------------------------------------------------- npy stack
 
-def npy_roundtrip(ctx, n):
-    import dask
-    import dask_array as da
+NPY_DTYPES = ("int64", "float64", "int32", "uint8")
 
+
+def npy_data(spec):
+    shape = tuple(spec["shape"])
+    a = source_array(spec.get("salt", 3), shape)
+    dt = np.dtype(spec.get("dtype", "int64"))
+    return (a % 251).astype(dt) if dt == np.uint8 else a.astype(dt)
+
+
+def rand_npy_spec(rng, salt=3):
+    rank = rng.randint(1, 3)
+    shape = tuple(0 if rng.random() < 0.04 else rng.randint(1, 6) for _ in range(rank))
+    chunks = tuple(gen.rand_chunks(rng, s, zeros=0.06, maxparts=4) for s in shape)
+    return {"shape": list(shape), "chunks": [list(c) for c in chunks], "axis": rng.randint(0, rank - 1),
+            "dtype": rng.choice(NPY_DTYPES), "salt": salt, "mmap_mode": rng.choice(["r", None]),
+            "derived": rng.random() < 0.3, "optimize": rng.random() < 0.7}
+
+
+def npy_roundtrip(ctx, n):
+    """single round trips into fresh directories, and HISTORIES that write 2-3 different arrays
+    (shape / chunking / dtype / axis all change) into ONE directory, reading back after every write;
+    controls run the same histories with a fresh directory per step"""
     rng = ctx.rng
     pairs = []
-    for _ in range(n):
-        rank = rng.randint(1, 3)
-        shape = tuple(0 if rng.random() < 0.04 else rng.randint(1, 6) for _ in range(rank))
-        chunks = tuple(gen.rand_chunks(rng, s, zeros=0.06, maxparts=4) for s in shape)
-        axis = rng.randint(0, rank - 1)
-        data = source_array(3, shape)
-        derived = rng.random() < 0.3
-        case = {"kind": "npy_stack", "shape": list(shape), "chunks": [list(c) for c in chunks], "axis": axis,
-                "mmap_mode": rng.choice(["r", None]), "derived": derived, "optimize": rng.random() < 0.7}
-        sig, det, req = run_npy(case)
-        ctx.count(("npy", rank, axis, len(chunks[axis]) > 1, case["mmap_mode"], derived))
-        if req is not None:
-            pairs.append(req)
+    cases = []
+    for _ in range(n // 2):
+        cases.append({"kind": "npy_history", "steps": [rand_npy_spec(rng)], "reuse": False, "hold": False})
+    for _ in range(max(1, n // 5)):
+        steps = [rand_npy_spec(rng, salt=3 + k) for k in range(rng.randint(2, 3))]
+        r = rng.random()
+        cases.append({"kind": "npy_history", "steps": steps, "reuse": r < 0.8, "hold": r < 0.3})
+    for case in cases:
+        sig, det, reqs = run_npy(case)
+        st = case["steps"]
+        ctx.count(("npy", len(st), case["reuse"], case["hold"], tuple(len(x["shape"]) for x in st),
+                   tuple(x["axis"] for x in st), len({x["dtype"] for x in st}) > 1, st[-1]["mmap_mode"]))
+        pairs.extend(reqs)
         if sig is not None:
-            ctx.fail(f"npy_stack:{sig}", {"kind": "npy_stack", "program": case, "details": det}, "to_npy_stack/from_npy_stack round trip differs from the array")
+            small = npy_shrink(case, sig)
+            s2, d2, _ = run_npy(small)
+            if s2 != sig:
+                small, d2 = case, det
+            ctx.fail(f"npy_stack:{sig}", {"kind": "npy_history", "program": small, "details": d2},
+                     "to_npy_stack/from_npy_stack round trip differs from the array")
+    ctx.notes["npy_histories"] = sum(1 for c in cases if len(c["steps"]) > 1)
+    ctx.notes["npy_roundtrips"] = sum(len(c["steps"]) for c in cases)
     return pairs
 
 
-def run_npy(case):
+def npy_shrink(case, sig):
+    """drop leading/middle steps and simplify specs while the same signature still fails"""
+    best = case
+    changed = True
+    tries = 0
+    while changed and tries < 30:
+        changed = False
+        for i in range(len(best["steps"]) - 1):
+            c = dict(best, steps=best["steps"][:i] + best["steps"][i + 1:])
+            tries += 1
+            if run_npy(c)[0] == sig:
+                best, changed = c, True
+                break
+        if changed:
+            continue
+        for i, st in enumerate(best["steps"]):
+            for k, v in (("derived", False), ("mmap_mode", None), ("optimize", True), ("chunks", [[n] for n in st["shape"]])):
+                if st.get(k) != v:
+                    c = dict(best, steps=best["steps"][:i] + [dict(st, **{k: v})] + best["steps"][i + 1:])
+                    tries += 1
+                    if run_npy(c)[0] == sig:
+                        best, changed = c, True
+                        break
+            if changed:
+                break
+    return best
+
+
+def npy_step(dirname, spec, fresh):
+    """one write + on-disk check + read-back.  Returns (signature or None, details, request, array)."""
     import dask
     import dask_array as da
 
-    shape = tuple(case["shape"])
-    chunks = tuple(tuple(c) for c in case["chunks"])
-    axis = case["axis"]
-    data = source_array(3, shape)
-    d = da.from_array(data, chunks=chunks)
-    if case["derived"]:
-        d = (da.from_array(data - 2, chunks=chunks) + 2)
-    tmp = tempfile.mkdtemp(prefix="verif-c25-", dir="/tmp")
-    dirname = os.path.join(tmp, "stack")
+    shape = tuple(spec["shape"])
+    chunks = tuple(tuple(c) for c in spec["chunks"])
+    axis = spec["axis"]
+    data = npy_data(spec)
+    if spec.get("derived"):
+        d = da.from_array(data - 2, chunks=chunks) + 2
+        d = d.astype(data.dtype)
+    else:
+        d = da.from_array(data, chunks=chunks)
+    want_chunks = tuple(tuple(c) if k == axis else (sum(c),) for k, c in enumerate(chunks))
     req = None
+    with dask.config.set({"array.optimize-graph": bool(spec.get("optimize", True))}):
+        try:
+            da.to_npy_stack(dirname, d, axis=axis)
+            with open(os.path.join(dirname, "info"), "rb") as f:
+                info = pickle.load(f)
+            req = (f"io.npy_chunks {f_ll(chunks)} {axis}", "ok " + f_ll(info["chunks"]))
+            if info.get("axis") != axis or np.dtype(info.get("dtype")) != data.dtype:
+                return "info-file", {"info": repr(info)[:200]}, req, None
+            files = sorted(f for f in os.listdir(dirname) if f.endswith(".npy"))
+            expect = [f"{i}.npy" for i in range(len(chunks[axis]))]
+            # a reused directory may keep higher-numbered files of an earlier, longer stack (never read)
+            if (sorted(expect) != files) if fresh else (not set(expect) <= set(files)):
+                return "files", {"files": files, "want": expect}, req, None
+            pos = 0
+            for i, c in enumerate(chunks[axis]):
+                blk = np.load(os.path.join(dirname, f"{i}.npy"))
+                sl = [slice(None)] * len(shape)
+                sl[axis] = slice(pos, pos + c)
+                pos += c
+                w = data[tuple(sl)]
+                if blk.shape != w.shape or blk.dtype != w.dtype or not np.array_equal(blk, w):
+                    return "file-content", {"file": i, "got": blk.tolist() if blk.size <= 60 else str(blk.shape)}, req, None
+            y = da.from_npy_stack(dirname, mmap_mode=spec.get("mmap_mode", "r"))
+            meta = {"shape": tuple(y.shape), "dtype": str(y.dtype), "chunks": y.chunks}
+            if tuple(y.shape) != shape or y.dtype != data.dtype or tuple(tuple(c) for c in y.chunks) != want_chunks:
+                return "read-back-metadata", {"got": meta, "want": {"shape": shape, "dtype": str(data.dtype), "chunks": want_chunks}}, req, y
+            got = np.asarray(y.compute())
+            if got.shape != shape or got.dtype != data.dtype or not np.array_equal(got, data):
+                return "values", {"got": got.tolist() if got.size <= 60 else str(got.shape), "want": data.tolist() if data.size <= 60 else str(shape)}, req, y
+            if all(s > 0 for s in shape):
+                ix = tuple(slice(0, max(1, s - 1)) for s in shape)
+                if not np.array_equal(np.asarray(y[ix].compute()), data[ix]):
+                    return "values-sliced", {}, req, y
+            return None, {}, req, y
+        except Exception as e:  # noqa: BLE001
+            return f"raises:{type(e).__name__}", {"error": repr(e)[:300]}, req, None
+
+
+def run_npy(case):
+    """Run a single round trip (legacy kind `npy_stack`) or a history.  `reuse`: all steps write into
+    one directory; `hold`: the arrays read back earlier stay referenced while later steps run (otherwise
+    they are dropped and collected first).  Returns (signature or None, details, requests)."""
+    import gc
+
+    if case.get("kind") == "npy_stack" or "steps" not in case:
+        case = {"steps": [dict(case, dtype="int64", salt=3)], "reuse": False, "hold": False}
+    tmp = tempfile.mkdtemp(prefix="verif-c25-", dir="/tmp")
+    reqs = []
+    held = []
     try:
-        with dask.config.set({"array.optimize-graph": bool(case["optimize"])}):
-            try:
-                da.to_npy_stack(dirname, d, axis=axis)
-                with open(os.path.join(dirname, "info"), "rb") as f:
-                    info = pickle.load(f)
-                req = (f"io.npy_chunks {f_ll(chunks)} {axis}", "ok " + f_ll(info["chunks"]))
-                files = sorted(f for f in os.listdir(dirname) if f.endswith(".npy"))
-                nblocks = len(chunks[axis])
-                if files != sorted(f"{i}.npy" for i in range(nblocks)):
-                    return "files", {"files": files, "want_blocks": nblocks}, req
-                pos = 0
-                for i, c in enumerate(chunks[axis]):
-                    blk = np.load(os.path.join(dirname, f"{i}.npy"))
-                    sl = [slice(None)] * len(shape)
-                    sl[axis] = slice(pos, pos + c)
-                    pos += c
-                    if blk.shape != data[tuple(sl)].shape or not np.array_equal(blk, data[tuple(sl)]):
-                        return "file-content", {"file": i, "got": blk.tolist() if blk.size <= 60 else str(blk.shape)}, req
-                y = da.from_npy_stack(dirname, mmap_mode=case["mmap_mode"])
-                if tuple(y.shape) != shape:
-                    return "shape", {"got": tuple(y.shape)}, req
-                got = np.asarray(y.compute())
-                if got.shape != shape or not np.array_equal(got, data):
-                    return "values", {"got": got.tolist() if got.size <= 60 else str(got.shape), "want": data.tolist() if data.size <= 60 else str(shape)}, req
-                # read part of it back (slices into the loaded stack)
-                if all(s > 0 for s in shape):
-                    part = np.asarray(y[tuple(slice(0, max(1, s - 1)) for s in shape)].compute())
-                    if not np.array_equal(part, data[tuple(slice(0, max(1, s - 1)) for s in shape)]):
-                        return "values-sliced", {}, req
-            except Exception as e:  # noqa: BLE001
-                return f"raises:{type(e).__name__}", {"error": repr(e)[:300]}, req
+        for k, spec in enumerate(case["steps"]):
+            dirname = os.path.join(tmp, "stack" if case["reuse"] else f"stack{k}")
+            fresh = not os.path.exists(dirname)
+            sig, det, req, y = npy_step(dirname, spec, fresh)
+            if req is not None:
+                reqs.append(req)
+            if sig is not None:
+                if k > 0 and case["reuse"]:
+                    # one stable class for "stale read-back while an earlier array of this directory is alive"
+                    det = dict(det, kind=sig)
+                    sig = "reuse-dir-held-stale" if case["hold"] else "reuse-dir:" + sig
+                return sig, dict(det, step=k), reqs
+            if case["hold"]:
+                held.append(y)
+            del y
+            if not case["hold"]:
+                gc.collect()
     finally:
+        held.clear()
         shutil.rmtree(tmp, ignore_errors=True)
-    return None, {}, req
+    return None, {}, reqs
 
 
 # --------------------------------------------------------------------------- entry
@@ -604,7 +696,9 @@ def run(ctx, replay=None):
         "plain / elemwise / sliced / rechunked), targets NumPy or recording array-likes filled with a sentinel, regions None or "
         "tuples of slices with offsets, steps 1-3, open stops, integer entries, 8% unsupported (negative start/stop/step: must "
         "raise or write correctly), lock True/False/Lock, compute, return_stored, load_stored, optimize on/off; "
-        "to_npy_stack/from_npy_stack over every axis, chunkings with zero-length chunks, mmap modes. distinct by (pairs, lock, "
+        "to_npy_stack/from_npy_stack over every axis, chunkings with zero-length chunks, dtypes, mmap modes, as single round "
+        "trips and as histories of 2-3 different arrays written into ONE directory (on-disk files, metadata and read-back "
+        "checked after every write; earlier arrays released or still referenced; fresh-directory controls). distinct by (pairs, lock, "
         "compute, return_stored, load_stored, optimize, source kinds, regions present, refused). correspondence: write index of "
         "every block actually written (identified by content) and direct load_store_chunk / fuse_slice calls vs the model"
     )
@@ -616,10 +710,10 @@ def run(ctx, replay=None):
     if replay is not None:
         case = replay.get("case", replay)
         prog = case.get("program")
-        if case.get("kind") == "npy_stack":
+        if case.get("kind") in ("npy_stack", "npy_history"):
             sig, det, _ = run_npy(prog)
             if sig is not None:
-                ctx.fail(f"npy_stack:{sig}", {"kind": "npy_stack", "program": prog, "details": det}, "replayed round trip still fails")
+                ctx.fail(f"npy_stack:{sig}", {"kind": "npy_history", "program": prog, "details": det}, "replayed round trip still fails")
         elif prog is not None:
             sig, det, _ = run_case(prog)
             if sig not in (None, "invalid-case", "unsupported-region-accepted-correctly"):
